@@ -8,6 +8,7 @@
 
    legs
      pack     ( objs so se )             -> ( render ( r ... ) so se )   |  ( render 0 )
+     level    ( objs so se env cands )   -> the same, packed at the zstd level the environment selects
      read     ( entry reqs frames specs )-> ( verdict ... )
      extract  ( objs so se spec )        -> ( write_err ) | ( miss ) | ( panic ) | ( hit so se ( f ... ) )
    objs = ( (name mode content frame [optional present]) ... ), so/se = ( content frame ), frames = ( (start len isempty) ... )
@@ -159,12 +160,57 @@ Definition run_read (x : sx) : sx :=
   | _ => err "bad case"
   end.
 
+(* level leg: ( objs so se env cands ); env = ( ) | ( #bytes ); cands = ( ( neg mag ( frame ... ) so_frame se_frame ) ... ):
+   the real frames of the case's contents at a few levels.  The model parses the environment itself (zstd_level),
+   packs with the frames of THAT level (cache_members_cfg) and reads the entry back with the level-agnostic reader. *)
+Definition dec_env (x : sx) : option (list N) :=
+  match x with SL [SB v] => Some v | _ => None end.
+
+Definition cand_of (cands : list sx) (l : level) : option sx :=
+  find (fun c => let f := get_L c in
+                 Bool.eqb (get_bool (nth_sx f 0)) (fst l) && N.eqb (get_N (nth_sx f 1)) (snd l)) cands.
+
+Fixpoint with_frames (os : list obj) (fs : list sx) : list obj :=
+  match os, fs with
+  | o :: r, f :: fr => mkObj (o_name o) (o_mode o) (o_tok o) (get_B f) (o_optional o) (o_present o) :: with_frames r fr
+  | _, _ => os
+  end.
+
+Definition run_level (x : sx) : sx :=
+  match x with
+  | SL (SL objs :: so :: se :: env :: SL cands :: _) =>
+    let os0 := dec_objs objs 0 in
+    let e := dec_env env in
+    let table_at (l : level) : table * list N * list N :=
+      match cand_of cands l with
+      | Some c =>
+        let f := get_L c in
+        table_of (with_frames os0 (get_L (nth_sx f 2)))
+                 (SL [nth_sx (get_L so) 0; nth_sx f 3]) (SL [nth_sx (get_L se) 0; nth_sx f 4])
+      | None => ([], [], [])
+      end in
+    match cand_of cands (zstd_level e) with
+    | None => SL [sym "no_frames_for_level"; sbool (fst (zstd_level e)); SN (snd (zstd_level e))]
+    | Some _ =>
+      let '(t, so_t, se_t) := table_at (zstd_level e) in
+      let compress_at (l : level) := compress_t (fst (fst (table_at l))) in
+      let ms := cache_members_cfg compress_at e (map (fun o => (o_name o, o_mode o, o_tok o)) os0) so_t se_t in
+      if negb (writable ms) then SL [sym "unsupported"]
+      else
+        match verdict t (write_zip ms) (map o_name os0) with
+        | SL (so_v :: se_v :: rs) => SL [render ms; SL rs; so_v; se_v]
+        | v => SL [render ms; v]
+        end
+    end
+  | _ => err "bad case"
+  end.
+
 Definition file_mode (m : option N) : N :=
   match m with Some md => N.land md 4095 | None => 384 end.
 
 Definition run_extract (x : sx) : sx :=
   match x with
-  | SL [SL objs; so; se; spec] =>
+  | SL (SL objs :: so :: se :: spec :: _) =>
     let os := dec_objs objs 0 in
     let '(t, so_t, se_t) := table_of os so se in
     let srcs := map (fun o => (o_name o,
@@ -196,6 +242,7 @@ Definition run_extract (x : sx) : sx :=
 
 Definition dispatch (leg : list N) (x : sx) : sx :=
   if bytes_eqb leg (bs "pack") then run_pack x
+  else if bytes_eqb leg (bs "level") then run_level x
   else if bytes_eqb leg (bs "read") then run_read x
   else if bytes_eqb leg (bs "extract") then run_extract x
   else err "unknown leg".
